@@ -89,6 +89,7 @@ def emit_one(g, gi, runtime_ctor=False, limits=None, extra_decl=''):
         if r.ftor == 'f' and g.vtypes[r.lhs] == 'N': txt += ' >= vf::RN<%d>{}' % ri
         elif r.ftor == 'f': txt += ' >= vf::R<%d, %s>{}' % (ri, vt)
         elif r.ftor == 'lr': txt += ' >= vf::RL<%d, %s>{}' % (ri, vt)
+        elif r.ftor == 'st': txt += ' >= vf::%s<%d, %s>{}' % ('RS' if runtime_ctor else 'R', ri, vt)      # stateful functor objects only in run-time constructed parsers
         elif r.ftor == 'x' and g.vtypes[r.lhs] == 'N': txt += ' >>= vf::XN<%d>{}' % ri; is_ctx = True
         elif r.ftor == 'x': txt += ' >>= vf::X<%d, %s>{}' % (ri, vt); is_ctx = True
         elif r.ftor == 'd': pass
